@@ -5,6 +5,7 @@ import (
 	"fmt"
 	"go/format"
 	"go/token"
+	"io"
 	"reflect"
 	"strings"
 	"sync"
@@ -864,6 +865,83 @@ func runC05(c *fw.Ctx) {
 		})
 	}
 	_ = reflect.TypeOf
+	c05Reused(c, idx)
+}
+
+// c05Reused: the spacing that is rendered depends on the tree alone, not on what the file restorer
+// printed before. One FileRestorer prints a warm-up file of varying length, is (or is not) given a
+// fresh file set, and then prints a list file with a given spacing; the text must equal the print
+// by a fresh restorer (which the model judges elsewhere).
+func c05Reused(c *fw.Ctx, idx int) {
+	spaces := []dst.SpaceType{dst.None, dst.NewLine, dst.EmptyLine}
+	for ki, kind := range c05Kinds {
+		if kind.imports || kind.rawStr {
+			continue
+		}
+		for variant := 0; variant < 6; variant++ {
+			i := idx
+			idx++
+			if !c.Mine(i) {
+				continue
+			}
+			id := fmt.Sprintf("reused-file-restorer:%s/%d", kind.name, variant)
+			c.Case(id, func() {
+				build := func() *dst.File {
+					f, err := decorator.Parse(kind.tmpl(3))
+					if err != nil {
+						panic(err)
+					}
+					els := kind.elems(f, 3)
+					for j, e := range els {
+						d := nodeDecs(e)
+						d.Before = spaces[(variant+j)%3]
+						d.After = spaces[(variant/3+2*j)%3]
+					}
+					if variant%2 == 1 && len(f.Decls) > 0 {
+						// a hand-built tree need not start its first declaration on a new line
+						nodeDecs(f.Decls[0]).Before = dst.None
+						f.Decs.Start = nil
+					}
+					return f
+				}
+				want, perr := printFile(build())
+				if perr != "" {
+					return
+				}
+				for w := 0; w < c.Pick(70, 160); w++ {
+					for _, freshSet := range []bool{true, false} {
+						warm, err := decorator.Parse("package a\n\nvar x" + strings.Repeat("x", w/2) + " T\nvar y" + strings.Repeat("y", w-w/2) + " T\n")
+						if err != nil {
+							panic(err)
+						}
+						fr := decorator.NewRestorer().FileRestorer()
+						if fr.Fprint(io.Discard, warm) != nil {
+							return
+						}
+						if freshSet {
+							fr.Fset = token.NewFileSet()
+						}
+						var buf bytes.Buffer
+						var err2 error
+						if sig, detail := fw.Try(func() { err2 = fr.Fprint(&buf, build()) }); sig != "" {
+							c.Violate("print-failed", "print-failed:reused-file-restorer", id+": "+sig+"\n"+detail, "")
+							return
+						}
+						if err2 != nil {
+							return
+						}
+						c.Count("reused_prints_compared", 1)
+						if buf.String() != want {
+							c.Violate("spacing-depends-on-history", fmt.Sprintf("spacing-depends-on-history:%s:fresh-file-set=%v", kind.name, freshSet), fmt.Sprintf("%s: after a warm-up file of %d+28 bytes (fresh file set: %v) the list file prints differently than through a fresh restorer:\n%s\n--- fresh restorer:\n%s", id, w, freshSet, buf.String(), want), "")
+							return
+						}
+					}
+				}
+				c.Nontrivial(id)
+			})
+		}
+		_ = ki
+	}
 }
 
 func valueOf2(f *dst.File) dst.Expr {
